@@ -9,7 +9,9 @@ import (
 	"os"
 	"os/exec"
 	"path/filepath"
+	"runtime"
 	"sort"
+	"strconv"
 	"strings"
 	"sync"
 	"time"
@@ -544,16 +546,29 @@ func solveObligation(sc *smtScript, ob *Obligation, opts solveOpts) {
 			rtext := sc.renderSel(ob, false, -1, und, true)
 			rfile := filepath.Join(opts.workDir, sanitizeFile(ob.Name)+".core.smt2")
 			if os.WriteFile(rfile, []byte(rtext), 0o644) == nil {
+				type coreRes struct {
+					name string
+					sts  []string
+					secs float64
+				}
+				cch := make(chan coreRes, len(solvers))
+				nc := 0
 				for _, sp := range solvers {
 					if sp.name == "z3" {
 						continue
 					}
-					out, secs := runSolver(context.Background(), sp, rfile, 8)
-					sts := parseStatuses(out)
-					ob.Detail += fmt.Sprintf(" ; core[%s %.2fs] %s", sp.name, secs, strings.Join(sts, ","))
-					for j, st := range sts {
+					nc++
+					go func(sp solverSpec) {
+						out, secs := runSolver(context.Background(), sp, rfile, 8)
+						cch <- coreRes{sp.name, parseStatuses(out), secs}
+					}(sp)
+				}
+				for ; nc > 0; nc-- {
+					r := <-cch
+					ob.Detail += fmt.Sprintf(" ; core[%s %.2fs] %s", r.name, r.secs, strings.Join(r.sts, ","))
+					for j, st := range r.sts {
 						if j < len(pos) && st == "unsat" {
-							best[pos[j]] = vcResult{"unsat", sp.name + "(core)"}
+							best[pos[j]] = vcResult{"unsat", r.name + "(core)"}
 						}
 					}
 				}
@@ -579,6 +594,9 @@ func solveObligation(sc *smtScript, ob *Obligation, opts solveOpts) {
 		// candidate inputs for a replay: a model of the path with the quantified assumptions dropped (an
 		// over-approximation; only a replay on the real code can confirm it)
 		for i, b := range best {
+			if !opts.noRetry {
+				break // a retry with a longer budget may follow: candidate inputs are computed at the end (solveAll)
+			}
 			if b.status == "unknown" {
 				if m := relaxedModel(sc, ob, i, opts); m != "" {
 					ob.Model = m
@@ -740,9 +758,17 @@ func solveAll(sc *smtScript, obs []*Obligation, opts solveOpts) {
 				again = append(again, ob)
 			}
 		}
-		if len(again) > 0 && len(again) <= 12 {
+		// no retry when the verdict is already settled by a counterexample elsewhere in this batch, or when so many
+		// obligations are undecided that a busy machine is not the likely cause
+		settled := false
+		for _, ob := range obs {
+			if ob.Status == "failed" && !strings.HasPrefix(ob.Detail, "undischarged (no solver decided)") && !satCheck(ob) {
+				settled = true
+			}
+		}
+		if len(again) > 0 && len(again) <= 6 && !settled && machineBusy() {
 			o2 := opts
-			o2.timeoutS = opts.timeoutS * 3
+			o2.timeoutS = opts.timeoutS * 2
 			o2.par = 3
 			o2.noRetry = true
 			for _, ob := range again {
@@ -754,6 +780,31 @@ func solveAll(sc *smtScript, obs []*Obligation, opts solveOpts) {
 			for _, ob := range again {
 				if ob.Status == "discharged" {
 					ob.Detail = "decided on the retry with a longer budget; " + ob.Detail
+				}
+			}
+		}
+	}
+	// candidate inputs (for the replay) of obligations that stay undecided and were not retried
+	if !opts.noRetry {
+		n := 0
+		for _, ob := range obs {
+			if ob.Status == "failed" && strings.HasPrefix(ob.Detail, "undischarged (no solver decided)") && ob.Model == "" && ob.Kind != "strpos" && n < 4 {
+				n++
+				o3 := opts
+				o3.noRetry = true
+				nt := 0
+				for _, vc := range ob.VCs {
+					if vc.goal != "true" {
+						nt++
+					}
+				}
+				for i := 0; i < nt && i < 2; i++ {
+					if m := relaxedModel(ob.script, ob, i, o3); m != "" {
+						ob.Model = m
+						ob.Inputs = parseGetValue(m, ob.inputTerms)
+						ob.Detail += " ; candidate inputs from the quantifier-free relaxation of path " + fmt.Sprint(i)
+						break
+					}
 				}
 			}
 		}
@@ -940,4 +991,22 @@ func sexprPairs(s string) [][2]string {
 		out = append(out, [2]string{a, b})
 	}
 	return out
+}
+
+// machineBusy: the 1-minute load average exceeds three quarters of the CPUs — solver budgets measured in wall-clock
+// seconds are then not comparable with an idle machine's, and an undecided obligation deserves a second, longer try.
+func machineBusy() bool {
+	b, err := os.ReadFile("/proc/loadavg")
+	if err != nil {
+		return true
+	}
+	f := strings.Fields(string(b))
+	if len(f) == 0 {
+		return true
+	}
+	l, err := strconv.ParseFloat(f[0], 64)
+	if err != nil {
+		return true
+	}
+	return l > 0.75*float64(runtime.NumCPU())
 }
